@@ -86,6 +86,24 @@ def _entry_model(it):
     return None
 
 
+def _lookup_model(it):
+    """`match self.dots.get_mut(k) { Some(c) => .., None => .. }`: the same model as the Entry API, spelled with an Option -
+    Some: the stored counter is the payload, stores go through it (`*c = v`); None: get(k) == 0, stores are plain inserts."""
+    for bb, c in sorted(it.calls.items()):
+        if call_name(c.term) in ('get_mut', 'get') and len(c.args) == 2 and 'Map' in c.cid:
+            pp = param_path(c.args[0].val)
+            if pp and pp[0] == 1 and pp[1][-1:] == ('dots',):
+                L = versionless(c.term)
+                pay = ('field', L, 'Some.0')
+                m = {'E': L, 'key': versionless(c.args[1].val), 'occ': 1, 'vac': 0, 'ins_occ': [], 'ins_vac': [], 'payload': pay}
+                for (b2, si), w in sorted(it.writes.items()):
+                    if w.loc is not None and w.loc[0][0] == 'O' and versionless(w.loc[0][1]) == pay and not w.loc[1]:
+                        m['ins_occ'].append((b2, w))
+                if m['ins_occ'] and any(sw.discr[0] == 'discr' and versionless(sw.discr[1]) == L for sw in it.switches.values()):
+                    return m
+    return None
+
+
 @rule('VC-APPLY', {
     'C10': 'apply must be monotone: keep the max (insert when get < counter, never when get > counter)',
     'C09': 'a stale dot must never lower a counter',
@@ -100,7 +118,7 @@ def vc_apply(ctx):
     body = ctx.method(VCLOCK, 'CmRDT', 'apply')
     it = interp(facts, body)
     ins = _dots_writes(it, ('insert',))
-    em = _entry_model(it)
+    em = _entry_model(it) or _lookup_model(it)
     found = []
     base_cls = gate_classifier(found)
 
@@ -114,7 +132,8 @@ def vc_apply(ctx):
                 if not (y_[0] == 'field' and y_[2] == 'counter' and em['key'] == ('field', y_[1], 'actor')):
                     continue
                 x_ = versionless(x)
-                if world == 'occ' and is_call(x_, ('get', 'get_mut')) and len(x_[2]) == 1 and x_[2][0] == ('field', em['E'], 'Occupied.0'):
+                if world == 'occ' and (x_ == em['payload'] if 'payload' in em else
+                                       is_call(x_, ('get', 'get_mut')) and len(x_[2]) == 1 and x_[2][0] == ('field', em['E'], 'Occupied.0')):
                     found.append({'dot': y_[1], 'clock': em['E'][2][0]})
                     return ('gate', orient)
                 if world == 'vac' and x_[0] == 'const' and x_[1] == 0:
@@ -155,7 +174,9 @@ def vc_apply(ctx):
     else:
         bad = None
         for b_, c in all_ins:
-            if len(c.args) == 3:
+            if not hasattr(c, 'args'):
+                k, v = em['key'], versionless(c.val)        # a store through the payload of the lookup
+            elif len(c.args) == 3:
                 k, v = versionless(c.args[1].val), versionless(c.args[2].val)
             else:
                 k, v = em['key'], versionless(c.args[1].val)
